@@ -350,7 +350,9 @@ func genURL(r *RNG, s *SchemaSpec) *URLSpec {
 				u.Params = append(u.Params, QP{"filter", r.Pick([]string{"label", "a_label", "a b", "a&b", "x?y", "a#b", "50%", "a+b", "a/b", "é", "{", "\"", "a\\nb", "[1]",
 					`ring\u0007bell`, `del\u007fchar`, `a\\b`, `\"q\"`, `\u00e9`, `\ud83d\ude00`, `tab\tx`, `\u007Bx`, `\u000b`, `\udb40\udc01`, `a\/b`, `<\u003e&`,
 					// labels whose FIRST character (given as an escape) is one a JSON value can start with
-					`\u005bdraft]`, `\u005b]`, `\u005b{}]`, `\u0022q`, `\u0074rue`, `\u006eull`, `\u0031`, `\u002d1`, `\u0020lead`, "true", "null", "12", "-1", "\xff", "a\xc3", "\xed\xa0\x80z", "ok\xfe\xff"})})
+					`\u005bdraft]`, `\u005b]`, `\u005b{}]`, `\u0022q`, `\u0074rue`, `\u006eull`, `\u0031`, `\u002d1`, `\u0020lead`, "true", "null", "12", "-1", "\xff", "a\xc3", "\xed\xa0\x80z", "ok\xfe\xff",
+					// white space before a character that could start a JSON value
+					" {draft}", "  {", " {}", ` {"f":"a","o":"=","v":1}`, `\u0020{x}`, "\t{", " [1]", " \"q", " true", "\n{}"})})
 			case 3:
 				u.Params = append(u.Params, QP{"filter", r.Pick([]string{`{invalid}`, `{"f":1}`, `{"o":"and","v":5}`, `{"o":"or","v":[1]}`, `{}`, `{"f":"a","o":"=","v":"x"} trailing`,
 					`{"o":"or","v":[null]}`, `{"o":"and","v":[{"o":"or","v":[null]},null]}`, `{"o":"and"}`, `{"o":"or"}`, `{"o":"and","v":null}`, `{"o":"and","v":[{"o":"or"}]}`, `{"o":"or","v":[{"o":"and","v":[]},{"o":"or"}]}`, `{"f":"a","o":"="}`, `{"o":"in","f":"a"}`, `{"o":"and","v":""}`, `{"v":[]}`})})
@@ -359,7 +361,7 @@ func genURL(r *RNG, s *SchemaSpec) *URLSpec {
 				u.Params = append(u.Params, QP{"filter", string(b)})
 			}
 		case 10:
-			u.Params = append(u.Params, QP{r.Pick([]string{"foo", "fields", "fields[]", "page[]", "page", "sortx", "Include", "filter[x]", "fields[a", ""}), r.Pick([]string{"", "x", "1"})})
+			u.Params = append(u.Params, QP{r.Pick([]string{"foo", "fields", "fields[]", "page[]", "page", "sortx", "Include", "filter[x]", "fields[a", "", "pagesize]", "sort]", "]", "x]]", "a]b[c]", "[", "[]", "fields]"}), r.Pick([]string{"", "x", "1"})})
 		default:
 			// repeat an earlier parameter name with another value
 			if len(u.Params) > 0 {
